@@ -562,7 +562,7 @@ gd_nothrow
           return;
         case GD_UINT32:
           for (i = 0; i < n; i++)
-            ((uint32_t *)data_out)[i] = (int32_t)((double *)data_in)[i];
+            ((uint32_t *)data_out)[i] = (uint32_t)((double *)data_in)[i];
           return;
         case GD_INT64:
           for (i = 0; i < n; i++)
